@@ -153,4 +153,288 @@ theorem restrict_trivial {all K below : List String} (hK : K.Nodup) (hb : below.
     rw [this]; simp
 
 
+
+/- the leaf lists of the entries are duplicate-free when the leaves are -/
+mutual
+theorem below_nodup : ∀ (t : T), t.leaves.Nodup → ∀ s ∈ t.splitsBelow, s.below.Nodup
+  | .node d p [], _, s, hs => by simp [T.splitsBelow, splitsL] at hs
+  | .node d p (k :: ks), hn, s, hs => by
+    simp only [T.splitsBelow] at hs
+    simp only [T.leaves] at hn
+    exact below_nodupL (k :: ks) hn s hs
+theorem below_nodupL : ∀ (k : Kids), (leavesL k).Nodup → ∀ s ∈ splitsL k, s.below.Nodup
+  | [], _, s, hs => by simp [splitsL] at hs
+  | (e, t) :: r, hn, s, hs => by
+    simp only [leavesL, List.nodup_append] at hn
+    simp only [splitsL, List.mem_cons, List.mem_append] at hs
+    rcases hs with rfl | hs | hs
+    · exact hn.1
+    · exact below_nodup t hn.1 s hs
+    · exact below_nodupL r hn.2.1 s hs
+end
+
+theorem sz_of_subset {all A : List String} (h : ∀ x ∈ A, x ∈ all) : sz all A = A.length := by
+  unfold sz; rw [List.filter_eq_self.2 (fun x hx => by simpa using h x hx)]
+
+/-- **The non-trivial sides of what is left after removing the outgroup are the restrictions of
+    the non-trivial sides of the tree.** -/
+theorem restrict_mem {t tn : T} (ST : Same t tn) (hu : t.tipNames.Nodup) (r : Nat) (e : EdgeD) (c : T)
+    (hk : tn.kids[r]? = some (e, c)) (hc2 : 2 ≤ c.kids.length) (K : List String) (hKp : K.Perm c.leaves)
+    (a : List String) :
+    a ∈ (T.node c.d 0 c.kids).usplits.map (·.side) ↔
+    a ∈ ((t.usplits.map (·.side)).map (fun σ => canonSide K (σ.filter K.contains))).filter
+      (fun a => decide (2 ≤ lightSize K a)) := by
+  have hun : tn.tipNames.Nodup := ST.tips.nodup_iff.2 hu
+  obtain ⟨q1, _⟩ := moveRoot_tipNames_split tn r e c hk
+  have hnd2 : (c.leaves ++ (oldRoot tn r).leaves).Nodup := q1.nodup_iff.2 hun
+  have hcn : c.leaves.Nodup := (List.nodup_append.1 hnd2).1
+  have hon : (oldRoot tn r).leaves.Nodup := (List.nodup_append.1 hnd2).2.1
+  have hdisj : ∀ x, x ∈ c.leaves → x ∉ (oldRoot tn r).leaves :=
+    fun x h1 h2 => (List.nodup_append.1 hnd2).2.2 x h1 x h2 rfl
+  have hKn : K.Nodup := hKp.nodup_iff.2 hcn
+  have hKall : ∀ x ∈ K, x ∈ t.tipNames := fun x hx =>
+    ST.tips.mem_iff.1 (q1.mem_iff.1 (List.mem_append_left _ (hKp.mem_iff.1 hx)))
+  have hckids : c.kids ≠ [] := by intro h0; rw [h0] at hc2; simp at hc2
+  have hcl : c.leaves = leavesL c.kids := by obtain ⟨dc, pc, kc⟩ := c; exact leaves_of_kids hckids
+  have hutips : (T.node c.d 0 c.kids).tipNames = c.leaves := by
+    unfold T.tipNames
+    have : (c.kids.length == 1) = false := by simp; omega
+    simp [this, hcl]
+  have husplits : (T.node c.d 0 c.kids).splits = c.splitsBelow := by
+    obtain ⟨dc, pc, kc⟩ := c; simp [T.splits, T.splitsBelow_node]
+  have hKu : K.Perm (T.node c.d 0 c.kids).tipNames := by rw [hutips]; exact hKp
+  -- entries below the kept side
+  have hBin : ∀ s ∈ c.splitsBelow, s.below.Nodup ∧ (∀ x ∈ s.below, x ∈ K) := fun s hs =>
+    ⟨below_nodup c hcn s hs, fun x hx => hKp.mem_iff.2 (C14.below_sub c s hs x hx)⟩
+  have hlen_le : K.length ≤ t.tipNames.length := hKn.length_le_of_subset hKall
+  -- left to right and back
+  have hL : a ∈ (T.node c.d 0 c.kids).usplits.map (·.side) ↔
+      ∃ s ∈ c.splitsBelow, canonSide K s.below = a ∧ 2 ≤ lightSize K a := by
+    unfold T.usplits
+    simp only [List.mem_map, List.mem_filter, decide_eq_true_eq]
+    constructor
+    · rintro ⟨x, ⟨hx, hl⟩, rfl⟩
+      obtain ⟨s, hs, hsx⟩ := (mem_usplitsAll_sides _ _).1 (List.mem_map_of_mem (f := (·.side)) hx)
+      rw [husplits] at hs
+      refine ⟨s, hs, ?_, ?_⟩
+      · rw [canonSide_perm_all hKu]; exact hsx
+      · rw [lightSize_perm_all hKu]; exact hl
+    · rintro ⟨s, hs, rfl, hl⟩
+      have : canonSide K s.below ∈ (T.node c.d 0 c.kids).usplitsAll.map (·.side) := by
+        rw [mem_usplitsAll_sides]
+        exact ⟨s, by rw [husplits]; exact hs, by rw [canonSide_perm_all hKu]⟩
+      obtain ⟨x, hx, hxs⟩ := List.mem_map.1 this
+      exact ⟨x, ⟨hx, by rw [hxs, ← lightSize_perm_all hKu]; exact hl⟩, hxs⟩
+  rw [hL]
+  simp only [List.mem_filter, List.mem_map, decide_eq_true_eq]
+  constructor
+  · rintro ⟨s, hs, rfl, hl⟩
+    obtain ⟨hbn, hbK⟩ := hBin s hs
+    have hball : ∀ x ∈ s.below, x ∈ t.tipNames := fun x hx => hKall x (hbK x hx)
+    refine ⟨⟨canonSide t.tipNames s.below, ?_, restrict_inside hKn hKall hbn hbK hu⟩, hl⟩
+    -- the side is a non-trivial side of the tree
+    have hmem : canonSide t.tipNames s.below ∈ t.usplitsAll.map (·.side) := by
+      rw [← ST.sides, mem_usplitsAll_sides]
+      refine ⟨s, (splits_decomp tn r e c hk).mem_iff.2 (by simp [hs]), ?_⟩
+      exact canonSide_perm_all ST.tips _
+    obtain ⟨x, hx, hxs⟩ := List.mem_map.1 hmem
+    refine ⟨x, ?_, hxs⟩
+    unfold T.usplits
+    simp only [List.mem_filter, decide_eq_true_eq]
+    refine ⟨hx, ?_⟩
+    rw [hxs, lightSize_canonSide hu hbn, lightSize_eq, sz_of_subset hball]
+    rw [lightSize_canonSide hKn hbn, lightSize_eq, sz_of_subset hbK] at hl
+    omega
+  · rintro ⟨⟨σ, ⟨x, hx, rfl⟩, rfl⟩, hl⟩
+    unfold T.usplits at hx
+    simp only [List.mem_filter, decide_eq_true_eq] at hx
+    have hmem : x.side ∈ tn.usplitsAll.map (·.side) := by
+      rw [ST.sides]; exact List.mem_map_of_mem (f := (·.side)) hx.1
+    obtain ⟨s, hs, hsx⟩ := (mem_usplitsAll_sides _ _).1 hmem
+    rw [canonSide_perm_all ST.tips] at hsx
+    rw [← hsx] at hl ⊢
+    rcases List.mem_cons.1 ((splits_decomp tn r e c hk).mem_iff.1 hs) with rfl | hs'
+    · -- the root branch itself: everything that is kept is below it
+      exfalso
+      have := restrict_trivial (all := t.tipNames) (K := K) (below := c.leaves) hKn hcn hu hKall
+        (Or.inl (fun x hx' => hKp.mem_iff.1 hx'))
+      simp only at hl
+      omega
+    · rcases List.mem_append.1 hs' with hs' | hs'
+      · -- a branch on the removed side
+        exfalso
+        have hbn := below_nodup (oldRoot tn r) hon s hs'
+        have := restrict_trivial (all := t.tipNames) (K := K) (below := s.below) hKn hbn hu hKall
+          (Or.inr (fun x hx' hxb => hdisj x (hKp.mem_iff.1 hx') (C14.below_sub _ s hs' x hxb)))
+        omega
+      · obtain ⟨hbn, hbK⟩ := hBin s hs'
+        refine ⟨s, hs', ?_, ?_⟩
+        · exact (restrict_inside hKn hKall hbn hbK hu).symm
+        · exact hl
+
+
+
+theorem nodup_eraseDups_gen {α : Type} [BEq α] [LawfulBEq α] : ∀ (n : Nat) (l : List α), l.length ≤ n → l.eraseDups.Nodup
+  | 0, l, h => by
+    have : l = [] := List.length_eq_zero_iff.1 (by omega)
+    subst this; simp
+  | n + 1, [], _ => by simp
+  | n + 1, a :: as, h => by
+    rw [List.eraseDups_cons]
+    have hlen : (as.filter fun b => !b == a).length ≤ n := by
+      have := List.length_filter_le (fun b => !b == a) as
+      simp at h; omega
+    refine List.nodup_cons.2 ⟨?_, nodup_eraseDups_gen n _ hlen⟩
+    intro hm
+    rw [List.mem_eraseDups] at hm
+    have := (List.mem_filter.1 hm).2
+    simp at this
+
+/-- two lists of sides with the same elements have the same sorted duplicate-free presentation,
+    provided the sort key distinguishes the sides -/
+theorem canon_eq {X₁ X₂ : List (List String)} (h : ∀ a, a ∈ X₁ ↔ a ∈ X₂)
+    (hk : ∀ a ∈ X₁, ∀ b ∈ X₁, toString a = toString b → a = b) :
+    (X₁.eraseDups).mergeSort (fun a b => decide (toString a ≤ toString b)) =
+    (X₂.eraseDups).mergeSort (fun a b => decide (toString a ≤ toString b)) := by
+  have n1 := nodup_eraseDups_gen X₁.length X₁ (Nat.le_refl _)
+  have n2 := nodup_eraseDups_gen X₂.length X₂ (Nat.le_refl _)
+  have hp : (X₁.eraseDups).Perm (X₂.eraseDups) :=
+    (List.perm_ext_iff_of_nodup n1 n2).2 (fun a => by rw [List.mem_eraseDups, List.mem_eraseDups]; exact h a)
+  have srt : ∀ l : List (List String),
+      (l.mergeSort (fun a b => decide (toString a ≤ toString b))).Pairwise (fun a b => toString a ≤ toString b) := by
+    intro l
+    have := List.pairwise_mergeSort (le := fun a b : List String => decide (toString a ≤ toString b))
+      (by intro a b c; simpa using String.le_trans)
+      (by intro a b; simpa using String.le_total (toString a) (toString b)) l
+    simpa using this
+  refine List.Perm.eq_of_pairwise ?_ (srt _) (srt _)
+    ((List.mergeSort_perm _ _).trans (hp.trans (List.mergeSort_perm _ _).symm))
+  intro a b ha hb h1 h2
+  have ha' : a ∈ X₁ := List.mem_eraseDups.1 ((List.mergeSort_perm _ _).mem_iff.1 ha)
+  have hb' : b ∈ X₁ := (h b).2 (List.mem_eraseDups.1 ((List.mergeSort_perm _ _).mem_iff.1 hb))
+  exact hk a ha' b hb' (String.le_antisymm h1 h2)
+
+
+
+/-- **Outgroup removed**: what is left is the other side of the root branch, with the tips that
+    are not in the outgroup and the distances they had. -/
+theorem outgroup_remove_full (t t' : T) (strict : Bool) (S : List String)
+    (h : rerootOutGroup true strict S t = .ok t') (hu : t.tipNames.Nodup) (hg : LensGood t.splits)
+    (hs : ∀ s ∈ t.splits, GoodL s.e.sup) (hside : strict = true ∨ isSide t S = true) :
+    t'.tipNames.Perm (t.tipNames.filter (fun x => !(outTips t S).contains x)) ∧
+    (∀ a b, a ∈ t'.tipNames → b ∈ t'.tipNames → t'.dist a b = t.dist a b) ∧
+    (∀ K : List String, K.Perm t'.tipNames → ∀ a, a ∈ t'.usplits.map (·.side) ↔
+      a ∈ ((t.usplits.map (·.side)).map (fun σ => canonSide K (σ.filter K.contains))).filter
+        (fun a => decide (2 ≤ lightSize K a))) := by
+  unfold rerootOutGroup rerootOutGroupWith at h
+  obtain ⟨pl, hpl, h⟩ := Res.bind_ok h
+  obtain ⟨ec, hec, h⟩ := Res.bind_ok h
+  obtain ⟨e, c⟩ := ec
+  have hk := ofOption_ok_panic hec
+  simp only [if_true] at h
+  split at h
+  · cases h
+  · rename_i hlen2
+    cases h
+    obtain ⟨spath, hseff, hne, _, hts, hlen, hfound, hstrict, htn, hre⟩ := outgroupPlan_ok hpl
+    have S1 := unroot_same t hu hg hs
+    have hu1 : (unroot t).tipNames.Nodup := S1.tips.nodup_iff.2 hu
+    obtain ⟨S2, g2⟩ := rerootP_same spath (unroot t) none [] hu1 (unroot_lensGood t hg)
+    rw [← hts] at S2 g2
+    have hu2 : pl.ts.tipNames.Nodup := S2.tips.nodup_iff.2 hu1
+    obtain ⟨S3, _⟩ := rerootP_same pl.f.p pl.ts none (rerootP (unroot t) spath none []).2.2 hu2 g2
+    rw [← htn] at S3
+    have ST := (S1.trans S2).trans S3
+    have hu3 : pl.tn.tipNames.Nodup := ST.tips.nodup_iff.2 hu
+    have hseff' : pl.seff = outTips t S := hseff.trans (effOutgroup_eq_outTips t S S1.tips)
+    have hSn : pl.seff.Nodup := by rw [hseff']; exact nodup_eraseDups _
+    -- the two sides of the root branch
+    obtain ⟨q1, _⟩ := moveRoot_tipNames_split pl.tn pl.r e c hk
+    have hAl : (aSide pl.tn pl.r).leaves = (oldRoot pl.tn pl.r).leaves := by simp [aSide, oldRoot, T.leaves_node]
+    have hnd2 : (c.leaves ++ (oldRoot pl.tn pl.r).leaves).Nodup := q1.nodup_iff.2 hu3
+    have hAn : (aSide pl.tn pl.r).leaves.Nodup := by rw [hAl]; exact (List.nodup_append.1 hnd2).2.1
+    have hdf : pl.f.diff = 0 := by
+      rcases hside with hst | hst
+      · exact hstrict hst
+      · exact plan_diff_zero hpl hu hg hs hst
+    obtain ⟨hin, hout⟩ := plan_clade hSn hne hlen hfound htn hre hAn
+    have hA : ∀ x, x ∈ (oldRoot pl.tn pl.r).leaves ↔ x ∈ pl.seff := by
+      intro x; rw [← hAl]; exact ⟨hout hdf x, hin x⟩
+    -- the tips of what is left
+    have hckids : c.kids ≠ [] := by intro h0; rw [h0] at hlen2; simp at hlen2
+    have hcl : c.leaves = leavesL c.kids := by
+      obtain ⟨dc, pc, kc⟩ := c; exact leaves_of_kids hckids
+    have htips : (T.node c.d 0 c.kids).tipNames = c.leaves := by
+      unfold T.tipNames
+      have : (c.kids.length == 1) = false := by simp; omega
+      simp [this, hcl]
+    have hdisj : ∀ x, x ∈ c.leaves → x ∉ (oldRoot pl.tn pl.r).leaves :=
+      fun x h1 h2 => (List.nodup_append.1 hnd2).2.2 x h1 x h2 rfl
+    refine ⟨?_, ?_, ?_⟩
+    · rw [htips]
+      apply (List.perm_ext_iff_of_nodup (List.nodup_append.1 hnd2).1 (hu.filter _)).2
+      intro x
+      simp only [List.mem_filter, Bool.not_eq_true', List.contains_eq_mem, decide_eq_false_iff_not]
+      rw [← hseff']
+      constructor
+      · intro hx
+        refine ⟨ST.tips.mem_iff.1 (q1.mem_iff.1 (List.mem_append_left _ hx)), fun hs' => ?_⟩
+        exact hdisj x hx ((hA x).2 hs')
+      · rintro ⟨hx, hns⟩
+        have := q1.mem_iff.2 (ST.tips.mem_iff.2 hx)
+        rcases List.mem_append.1 this with h' | h'
+        · exact h'
+        · exact absurd ((hA x).1 h') hns
+    · intro a b ha hb
+      rw [htips] at ha hb
+      have hat : a ∈ t.tipNames := ST.tips.mem_iff.1 (q1.mem_iff.1 (List.mem_append_left _ ha))
+      have hbt : b ∈ t.tipNames := ST.tips.mem_iff.1 (q1.mem_iff.1 (List.mem_append_left _ hb))
+      rw [← ST.dist a b hat hbt]
+      unfold T.dist
+      rw [distW_perm _ (splits_decomp pl.tn pl.r e c hk), C14.distW_cons, C14.distW_append]
+      have h0 : (SplitE.mk c.leaves e c.isLeaf).sep a b = false := by
+        simp [SplitE.sep, ha, hb]
+      have h1 : distW EdgeD.lenOr0 (oldRoot pl.tn pl.r).splitsBelow a b = 0 :=
+        C14.distW_both_out _ _ a b (C14.out_of_sub _ a (hdisj a ha)) (C14.out_of_sub _ b (hdisj b hb))
+      rw [h0, h1]
+      have : (T.node c.d 0 c.kids).splits = c.splitsBelow := by
+        obtain ⟨dc, pc, kc⟩ := c; simp [T.splits, T.splitsBelow_node]
+      rw [this]
+      simp only [Bool.false_eq_true, if_false]
+      grind
+    · intro K hK a
+      rw [htips] at hK
+      exact restrict_mem ST hu pl.r e c hk (by omega) K hK a
+
+theorem filter_keep_eq {all : List String} (p : String → Bool) :
+    all.filter (all.filter p).contains = all.filter p := by
+  apply List.filter_congr
+  intro x hx
+  by_cases h : p x <;> simp [List.mem_filter, hx, h]
+
+/-- the Spec predicate the oracle evaluates when the outgroup is removed -/
+theorem removedOK_of (t t' : T) (strict : Bool) (S : List String)
+    (h : rerootOutGroup true strict S t = .ok t') (hu : t.tipNames.Nodup) (hg : LensGood t.splits)
+    (hs : ∀ s ∈ t.splits, GoodL s.e.sup) (hside : strict = true ∨ isSide t S = true)
+    (hk : keysOK t' = true) : removedOK t (outTips t S) t' = true := by
+  obtain ⟨h1, h2, h3⟩ := outgroup_remove_full t t' strict S h hu hg hs hside
+  unfold removedOK
+  simp only [Bool.and_eq_true, beq_iff_eq, List.all_eq_true, Bool.or_eq_true]
+  refine ⟨⟨sortS_congr h1, ?_⟩, ?_⟩
+  · intro a ha b hb
+    by_cases hab : a = b
+    · exact Or.inl hab
+    · exact Or.inr (h2 a b (h1.mem_iff.2 ha) (h1.mem_iff.2 hb))
+  · unfold restrictSplits canonSet T.usplitSet
+    simp only [filter_keep_eq]
+    have hk' : (t'.usplitsAll.map fun s => toString s.side).Nodup := by simpa [keysOK] using hk
+    apply canon_eq (h3 _ h1.symm)
+    intro a ha b hb hab
+    obtain ⟨x, hx, rfl⟩ := List.mem_map.1 ha
+    obtain ⟨y, hy, rfl⟩ := List.mem_map.1 hb
+    unfold T.usplits at hx hy
+    have := inj_of_nodup_map _ _ hk' x (List.mem_filter.1 hx).1 y (List.mem_filter.1 hy).1 hab
+    rw [this]
+
+
 end Gotree.C05
